@@ -162,6 +162,10 @@ func (g *refGen) authenSess(scope string, flags uint8) SessScript {
 		s := SessASCII(g.nextSid(), flags, long, pw, false, -1)
 		s.Tag = "ascii-long-user"
 		return s
+	case c == 19: // a very long password with octets above 0x7f (whatever the server says about it must still fit a reply)
+		s := SessASCII(g.nextSid(), flags, user, "\xc3\xa4"+r.Alnum(PickOf(r, 2000, 65400, 65420, 65500, 65525)), r.Bool(), -1)
+		s.Tag = "ascii-long-password"
+		return s
 	case c == 18: // a password with an octet above 0x7f (the CONTINUE is hand-encoded by the peer)
 		return SessASCII(g.nextSid(), flags, user, pw+"\xc3\xa4", r.Bool(), -1)
 	case c == 17: // empty user / empty password PAP
@@ -722,13 +726,18 @@ func genC09(r *Rand, p *Plan, tier string) {
 		k := 2 + r.Intn(up(7))
 		var scripts []SessScript
 		for j := 0; j < k; j++ {
+			fl := flags
+			if r.Chance(30) {
+				// sessions sharing a connection need not share their flag octet
+				fl = PickOf(r, uint8(0), 1, 4, 5)
+			}
 			switch r.Intn(6) {
 			case 0, 1, 2:
-				scripts = append(scripts, g.authenSess(adm.Scope, flags))
+				scripts = append(scripts, g.authenSess(adm.Scope, fl))
 			case 3, 4:
-				scripts = append(scripts, g.authorSess(adm.Scope, flags))
+				scripts = append(scripts, g.authorSess(adm.Scope, fl))
 			default:
-				scripts = append(scripts, g.acctSess(adm.Scope, flags, false))
+				scripts = append(scripts, g.acctSess(adm.Scope, fl, false))
 			}
 		}
 		if r.Chance(35) && len(scripts) >= 2 {
